@@ -11,6 +11,7 @@ From Coq Require Import ZArith NArith List Bool.
 From SV Require Import Fmt.VtfPixelExpr Fmt.VtfPixelExprProofs Fmt.VtfLayout Fmt.VtfLayoutProofs.
 From SV Require Import Gen.PixelCodecs_gen Gen.VtfLayout_gen Fmt.VtfGenProofs.
 From SV Require Import Fmt.VtfFrameSM Fmt.VtfFrameSMProofs Gen.VtfFrameSM_gen.
+From SV Require Import Fmt.VtfFrameRaise Fmt.VtfFrameRaiseProofs.
 From SV Require Import Bin.Struct Fmt.VtfContainer Fmt.VtfContainerProofs Gen.VtfContainer_gen.
 From SV Require Import Fmt.VtfSides Fmt.VtfSidesProofs.
 From SV Require Import Fmt.VtfWholeFile Fmt.VtfWholeFileProofs Fmt.VtfSheetProofs.
@@ -225,6 +226,60 @@ Theorem c15_parent_not_loaded_refuted :
   chain_ok pinned_cfg = false
   /\ toy_save ideal_rescale pinned_cfg [lazy 1; lazy 2; cleared] = [Some 1; Some 2; Some 201].
 Proof. exact parent_not_loaded_refuted. Qed.
+
+(** ** Round 5: a call that is REJECTED (raises) and whose exception the caller catches.
+    translate/c15_frame.py follows every method of Frame also along the paths that leave it by an exception (explicit raise,
+    assert, import, every call that can raise; self.load() contributes the exits of load()) and emits, per abstract pre-state,
+    the outcomes reached there ([gen_raise_tables]); [method_raises_cleanly] per method is an instance obligation of every run
+    ("every store that changes what the frame shows comes after everything that can raise").
+    Then: the frame shows the same pixels as before the call ... *)
+Theorem c15_rejected_call_shows_the_same_pixels : forall ts name, method_raises_cleanly ts name = true ->
+  forall pix fbytes blank decode newd scaled modf (st : fstate pix fbytes) o,
+    In o (find_row (raise_table_of ts name) (present (f_data st)) (present (f_src st))) ->
+    view pix fbytes blank decode (apply_outcome pix fbytes o blank decode newd scaled modf st) = view pix fbytes blank decode st.
+Proof. exact rejected_call_shows_the_same_pixels_gen. Qed.
+(** ... a level that still waits to be read from the file is saved as the (re-encoded) bytes of the file, whatever was
+    rejected on it (wrong-length buffer, frame of another size, format without decoder, index out of range) ... *)
+Theorem c15_rejected_call_on_lazy_level_then_save : forall pix fbytes blank decode encode scale t_load t_rescale cfg,
+  efftable_eqb t_load ideal_load = true -> efftable_eqb t_rescale ideal_rescale = true -> chain_ok cfg = true ->
+  forall ts name, method_raises_cleanly ts name = true ->
+  forall (chain : list (fstate pix fbytes)) m st b newd scaled modf o,
+    nth_error chain m = Some st -> f_src st = Some b ->
+    In o (find_row (raise_table_of ts name) (present (f_data st)) true) ->
+    nth_error (save_chain pix fbytes blank decode encode scale t_load t_rescale cfg
+                 (upd chain m (apply_outcome pix fbytes o (blank m) decode newd scaled modf))) m
+    = Some (Some (encode (decode b))).
+Proof. exact rejected_call_on_lazy_level_then_save_gen. Qed.
+(** ... and for any level in any state, save() writes for the WHOLE chain what it would have written without the call, or
+    what it writes after an explicit load() of that level (a cleared level may have been given its blank pixels, as by
+    every reading access: it is then no longer regenerated). *)
+Theorem c15_rejected_call_then_save : forall pix fbytes blank decode encode scale t_load t_rescale cfg,
+  efftable_eqb t_load ideal_load = true -> efftable_eqb t_rescale ideal_rescale = true -> chain_ok cfg = true ->
+  forall ts name, method_raises_cleanly ts name = true ->
+  forall (chain : list (fstate pix fbytes)) m newd scaled modf o,
+    (forall st, nth_error chain m = Some st -> In o (find_row (raise_table_of ts name) (present (f_data st)) (present (f_src st)))) ->
+    let after := upd chain m (apply_outcome pix fbytes o (blank m) decode newd scaled modf) in
+    save_chain pix fbytes blank decode encode scale t_load t_rescale cfg after
+      = save_chain pix fbytes blank decode encode scale t_load t_rescale cfg chain
+    \/ save_chain pix fbytes blank decode encode scale t_load t_rescale cfg after
+      = save_chain pix fbytes blank decode encode scale t_load t_rescale cfg (upd chain m (load pix fbytes (blank m) decode)).
+Proof. exact rejected_call_then_save_gen. Qed.
+(** Defective shapes.  copy_from() that forgets the file source in front of its validation (seeded fault c15_8): the
+    exit of the size test is not clean, and on the toy chain the stored level 1 (value 2) is written as the average (101). *)
+Theorem c15_copy_from_source_dropped_first_refuted :
+  raise_table_ok raise_copy_from_source_dropped_first = false
+  /\ In (DNoneV, false, SNoneV) (find_row raise_copy_from_source_dropped_first false true)
+  /\ toy_after_raise (DNoneV, false, SNoneV) [lazy 1; lazy 2] = [Some 1; Some 101]
+  /\ toy_save ideal_rescale good_cfg [lazy 1; lazy 2] = [Some 1; Some 2].
+Proof. exact copy_from_source_dropped_first_refuted. Qed.
+(** load() that forgets the file source before it reads the stream (the tree before the repair of round 5): after a failed
+    read the level is written blank (0). *)
+Theorem c15_load_source_dropped_first_refuted :
+  raise_table_ok raise_load_source_dropped_first = false
+  /\ toy_after_raise (DBlank, false, SNoneV) [lazy 1; lazy 2] = [Some 1; Some 0].
+Proof. exact load_source_dropped_first_refuted. Qed.
+Example c15_raise_tables_inhabited : method_raises_cleanly raise_example raise_example_name = true.
+Proof. exact raise_tables_inhabited. Qed.
 
 (** ** The container: header, resource directory, data blocks, frames (vtf.py: VTF.save / VTF.read) and the
     particle-sheet records.  Every struct.pack / struct.unpack site is regenerated from the source as a [site]
